@@ -84,6 +84,24 @@ def check_state(desc, sc, pats, flagsets, res, bash=True, names_tag='std'):
                 res.outcomes.add('ref-agrees-empty' if not gotn else 'ref-agrees')
             if bash and fs in BASH_SETS and not ({'neg', 'gl', 'dupsep'} & tags) and not ('gstar' in tags and dirlinks):
                 bash_in.append(text)
+        if fs in ('GE', 'GDE'):
+            # several expanded patterns in one call (SPLIT / BRACE / list), an absolute one first: the result is the
+            # union of what each piece returns alone
+            esc = G.escape(sc.root)
+            for first in ('a', '*'):
+                for rel in ('*/*', '*/a', '**/a', 'a/*', '.h'):
+                    ind = sorted(set(refglob.norm(x) for x in (real_glob(esc + '/' + first, fs, sc.root)[0] or []) +
+                                     (real_glob(rel, fs, sc.root)[0] or [])))
+                    for how, pp, f2 in (('split', esc + '/' + first + '|' + rel, fs + 'S'),
+                                        ('brace', '{' + esc + '/' + first + ',' + rel + '}', fs + 'B'),
+                                        ('list', [esc + '/' + first, rel], fs)):
+                        res.n['evaluations'] += 1
+                        got, _n = real_glob(pp, f2, sc.root)
+                        gotn = sorted(set(refglob.norm(x) for x in got or []))
+                        if gotn != ind:
+                            anon = lambda x: x.replace(sc.root, '<ROOT>')  # noqa: E731
+                            res.add_violation(ID, run.viol('multi-piece-union', {'tree': desc, 'pieces': ['<ROOT>/' + first, rel], 'how': how, 'flags': fs},
+                                                           [anon(x) for x in ind], [anon(x) for x in gotn]))
         if bash_in and bashref.available():
             g, d, sk = BASH_SETS[fs]
             outs = bashref.bash_glob(sc.root, bash_in, g, d, sk)
@@ -242,6 +260,14 @@ def replay(v):
     sc = fsx.Scratch()
     try:
         sc.load(fsx.from_desc(inp['tree']))
+        if v['kind'] == 'multi-piece-union':
+            esc = G.escape(sc.root)
+            p0, p1 = inp['pieces'][0].replace('<ROOT>', esc), inp['pieces'][1]
+            fs = inp['flags']
+            ind = sorted(set(refglob.norm(x) for x in (real_glob(p0, fs, sc.root)[0] or []) + (real_glob(p1, fs, sc.root)[0] or [])))
+            pp, f2 = {'split': (p0 + '|' + p1, fs + 'S'), 'brace': ('{' + p0 + ',' + p1 + '}', fs + 'B'), 'list': ([p0, p1], fs)}[inp['how']]
+            got = sorted(set(refglob.norm(x) for x in real_glob(pp, f2, sc.root)[0] or []))
+            return {'violates': got != ind, 'observed': [x.replace(sc.root, '<ROOT>') for x in got]}
         got, nscan = real_glob(inp['pattern'], inp['flags'], sc.root)
         if v['kind'] == 'no-termination':
             return {'violates': got is None, 'observed': {'scandir_calls': nscan}}
